@@ -37,7 +37,7 @@ def rules(model: Model, tier: str) -> List[RuleResult]:
     R6 = RuleResult(PROP, "AC6", "layout: four segments, three count slots, object parameters of both pure functions", min_instances=7)
     U = RuleResult(PROP, "C16-U", "every named parameter is read", min_instances=20)
     S = RuleResult(PROP, "C16-S", "two-phase sampler protocol of mh / mhcustom", min_instances=6)
-    N = RuleResult(PROP, "C16-N", "sample / step counts of the sampler loops", min_instances=6)
+    N = RuleResult(PROP, "C16-N", "sample / step counts of the sampler loops", min_instances=8)
     W = RuleResult(PROP, "C16-W", "weights sum to one; integral is sum f(x_i) w_i over the paired samples", min_instances=4)
     B = RuleResult(PROP, "C16-B", "backward re-uses the forward samples", min_instances=4)
 
@@ -57,8 +57,11 @@ def rules(model: Model, tier: str) -> List[RuleResult]:
     _counts(model, N)
     _weights(model, W)
     _same_samples(model, fc, B)
+    XS = RuleResult(PROP, "C16-X", "log p receives one sample position per call; one substitution context open at a time", min_instances=5)
+    _single_sample_calls(model, XS)
+    _one_context(model, XS)
     _hy = ac.hygiene_rules(model, ac.get_fncls(model, '_MCQuad'), PROP, min_copies=1, min_opt=2, min_conv=2, min_idx=8)
-    return [R1, R2, R3, R4, R5, R6, R6f, U, S, N, W, B, *_hy]
+    return [R1, R2, R3, R4, R5, R6, R6f, U, S, N, W, B, *_hy, XS]
 
 
 def _unused_params(model: Model, U: RuleResult):
@@ -201,6 +204,13 @@ def _counts(model: Model, N: RuleResult):
                 N.bad(h, good[0], "the per-step store is conditional on something else than the collect flag")
         else:
             N.bad(h, lp, "each iteration must store exactly one sample at the loop index (found %d store(s) in the loop)" % len(in_loop))
+        # no iteration can skip its store: the sampling loop has no continue / break / return
+        jumps = [n for n in ast.walk(lp) if isinstance(n, (ast.Continue, ast.Break, ast.Return))]
+        if jumps:
+            N.bad(h, jumps[0], "an iteration of the sampling loop can be cut short (%s): its row of the sample buffer is never written, so the expectation averages "
+                  "uninitialised memory (a rejected proposal must still record the current state)" % type(jumps[0]).__name__.lower())
+        else:
+            N.ok(h.fq, "%s: no continue/break/return inside the sampling loop (every iteration reaches its store)" % helper)
         # one state transition per iteration: the state variable is (re)assigned in the loop body at top level or under accept
         st = _state_var(h)
         steps = [s for s in ast.walk(lp) if isinstance(s, ast.Assign) and isinstance(s.targets[0], ast.Name) and s.targets[0].id == st]
@@ -223,6 +233,65 @@ def _counts(model: Model, N: RuleResult):
             else:
                 N.bad(h, good[0], "the sample is stored before the state is advanced in that iteration: the collected samples are the burned-in "
                       "state plus the first count-1 new states, and the last drawn state is never used")
+
+
+def _single_sample_calls(model: Model, X: RuleResult):
+    """log p (and the custom step) are documented to receive ONE sample position: every call of the `logpfcn` parameter in the
+    samplers passes a chain state or one element `xs[i]` of a node array - never the whole array of sample positions (a log p that
+    reduces over its argument would silently broadcast one value over all nodes)."""
+    for f in model.module(MCMC).functions.values():
+        if f.parent is not None or not f.params() or f.params()[0] != "logpfcn":
+            continue
+        defs = function_defs(f.node)
+        # arrays holding one entry per sample / node: defined from leggauss(...) or allocated with a leading sample count
+        arrays = set()
+        for nm, ds in defs.items():
+            for d in ds:
+                src = ast.unparse(d)
+                if "leggauss(" in src or ("torch.empty((" in src or "torch.zeros((" in src) and "nsamples" in src:
+                    arrays.add(nm)
+        changed = True
+        while changed:
+            changed = False
+            for nm, ds in defs.items():
+                if nm in arrays:
+                    continue
+                for d in ds:
+                    if isinstance(d, ast.Subscript) and isinstance(d.value, ast.Name) and d.value.id in arrays and not isinstance(d.slice, ast.Slice):
+                        continue
+                    if names_loaded(d) & arrays and not isinstance(d, ast.Subscript):
+                        arrays.add(nm)
+                        changed = True
+        for c in own_nodes(f.node):
+            if isinstance(c, ast.Call) and isinstance(c.func, ast.Name) and c.func.id == "logpfcn" and c.args:
+                a = c.args[0]
+                whole = isinstance(a, ast.Name) and a.id in arrays
+                what = "%s: logpfcn(%s, ...)" % (f.name, ast.unparse(a))
+                if whole:
+                    X.bad(f, enclosing_stmt(c), "log p is called with the whole array of sample positions `%s` instead of one position at a time: a density that reduces over "
+                          "its argument returns a single value that is broadcast over all nodes" % a.id, what=what)
+                else:
+                    X.ok(f.fq, what + " : one sample position")
+
+
+def _one_context(model: Model, X: RuleResult):
+    """At most one pure function's useobjparams context is open while a pure function is evaluated: with two contexts open at once,
+    functions that are methods of the SAME object overwrite each other's substituted tensors (the second install wins)."""
+    for f in model.module(MCQ).functions.values():
+        for w in own_nodes(f.node):
+            if not isinstance(w, ast.With):
+                continue
+            mine = [i for i in w.items if isinstance(i.context_expr, ast.Call) and isinstance(i.context_expr.func, ast.Attribute) and i.context_expr.func.attr == "useobjparams"]
+            if not mine:
+                continue
+            nested = [x for b in w.body for x in ast.walk(b) if isinstance(x, ast.With) and any(
+                isinstance(i.context_expr, ast.Call) and isinstance(i.context_expr.func, ast.Attribute) and i.context_expr.func.attr == "useobjparams" for i in x.items)]
+            what = "%s: `%s`" % (f.qualname, norm_stmt(w, 90))
+            if len(mine) > 1 or nested:
+                X.bad(f, w, "two useobjparams contexts are open at the same time: when f and log p are methods of the same object the second install overwrites the tensors "
+                      "of the first, so one of the functions is evaluated with the other's copies (its pull-back is None -> zero)", what=what)
+            else:
+                X.ok(f.fq, what + " : a single substitution context")
 
 
 def _weights(model: Model, W: RuleResult):
